@@ -53,11 +53,10 @@ def c18_runs(tier):
         fget('man', alts(0, 2), alts('val', 'thr'), alts(*DROPS), 1, drop=1)
         fget('man', 2, 'val', DROPS[0], 2, drop=1)
     else:
-        fget('man', 2, 'val', PROGS[0], 3, budget=120)
-        fget('man', 0, 'val', PROGS[1], 3, budget=120)
+        fget('man', 2, 'val', PROGS[0], 3, budget=200)
         fget('man', alts(0, 2), KINDS, PROGS[1], 2, budget=300)  # 8 configurations
-        fget('man', 0, 'val', alts(*PROGS[2::2]), 2, budget=120)
-        fget('man', 2, 'val', alts(*PROGS[3::2]), 2, budget=120)
+        fget('man', 0, 'val', alts(PROGS[2], PROGS[4], PROGS[6], PROGS[8]), 2, budget=150)
+        fget('man', 2, 'val', alts(PROGS[3], PROGS[5], PROGS[7], PROGS[9]), 1, budget=90)
         fget('man', alts(0, 2), KINDS, DROPS[0], 2, drop=1, budget=200)
         fget('man', 0, alts('val', 'thr'), DROPS[1], 2, drop=1, budget=120)
     fget('man', 2, 'val', '-.-.-', 3, drop=1)
@@ -79,20 +78,19 @@ def c18_runs(tier):
         fget('pool', 1, 'val', PROGS[0], 1, n=2, opts=FSC)
         fget('pool', 1, 'val', PROGS[0], 1, n=1, park=0, opts=FSC)
     else:
-        fget('pool', 1, 'val', PROGS[0], 2, n=1, budget=150)
+        fget('pool', 1, 'val', PROGS[0], 2, n=1, budget=200)
         for sched in ('pool', 'ts', 'cts'):
-            fget(sched, ALLPOL, 'val', alts(PROGS[1], PROGS[2]), 2, n=1, opts=FSC, budget=150)  # 8 configurations
-            fget(sched, ALLPOL, 'val', alts(PROGS[3], PROGS[4]), 1, n=1, budget=120)
-            fget(sched, 1, alts('ref', 'void', 'thr'), PROGS[1], 2, n=1, opts=FSC, budget=90)
-            fget(sched, 1, 'val', alts(*DROPS), 2, n=1, drop=1, opts=FSC, budget=90)
+            fget(sched, alts(1, 2), 'val', PROGS[1], 2, n=1, opts=FSC, budget=150)
+            fget(sched, ALLPOL, 'val', alts(PROGS[3], PROGS[4]), 1, n=1, budget=150)
+            fget(sched, 1, alts('ref', 'void', 'thr'), PROGS[1], 1, n=1, budget=120)
+            fget(sched, 1, 'val', alts(*DROPS), 2, n=1, drop=1, opts=FSC, budget=120)
             fget(sched, alts(0, 3), 'val', PROGS[1], 2, n=0)
-            fget(sched, 1, 'val', PROGS[0], 2, n=2, opts=FSC, budget=90)
-            fget(sched, 2, 'val', PROGS[1], 2, n=1, park=0, opts=FSC, budget=90)
-        fget('pool', 3, 'thr', PROGS[0], 3, n=1, opts=FSC, budget=200)
-        fget('nt', ALLPOL, 'val', alts(PROGS[0], PROGS[1]), 2, budget=150)
-        fget('nt', 1, alts('ref', 'void', 'thr'), PROGS[1], 2, budget=90)
-        fget('nt', alts(0, 1), alts('val', 'thr'), alts('r.-.d', 'z.g.e'), 2, drop=1, budget=90)
-        fget('imm', ALLPOL, KINDS, PROGS[1], 2, budget=60)
+            fget(sched, 1, 'val', PROGS[0], 2, n=2, opts=FSC, budget=120)
+            fget(sched, 2, 'val', PROGS[1], 2 if sched == 'pool' else 1, n=1, park=0, opts=FSC, budget=120)
+        fget('nt', alts(1, 2), 'val', PROGS[1], 2, budget=120)
+        fget('nt', alts(0, 3), alts('val', 'ref', 'void', 'thr'), PROGS[0], 1, budget=120)
+        fget('nt', 1, alts('val', 'thr'), 'r.-.d', 2, drop=1, budget=120)
+        fget('imm', ALLPOL, KINDS, PROGS[1], 2, budget=90)
     # TaskSet::wait() returned => the future is ready (nobody called get() before)
     fget(alts('ts', 'cts'), alts(1, 2), 'val', 'r.-.-', 2, n=1, opts=FSC, budget=90)
     # (3) sanitizer legs. Under ASan every execution that used the small-buffer allocator ends with a full leak scan
@@ -273,7 +271,7 @@ def c20_runs(tier):
     if not q:
         fut('pool', alts(1, 2), 'during', 2, n=1, d=1000000, api='for', opts=TIMED_FSC, budget=200)
         fut('pool', 1, 'during', 1, n=1, d=300, api='for', w2=1, budget=120)
-        fut('pool', 1, 'during', 2, n=2, d=1000000, api='for', opts=TIMED_FSC, budget=200)
+        fut('pool', 1, 'during', 1, n=2, d=1000000, api='for', opts=TIMED_FSC, budget=200)
         fut('pool', 2, 'during', 2, n=1, d=1000000, api='until', park=0, opts=TIMED_FSC, budget=200)
     # futures made by dispenso::async(schedulable, policy, f): one policy bitmask (kept as separate runs)
     for pol in (0, 1, 2, 3):
